@@ -200,6 +200,7 @@ type caseRun struct {
 	curOps    []rec
 	built     bool
 	first     bool
+	stop      bool // a watchdog fired: the rest of the case would only wait again
 }
 
 func (cr *caseRun) emit(r rec) {
@@ -911,6 +912,7 @@ func (cr *caseRun) observe(final bool) {
 			if !complete {
 				sync = false
 				cr.timeouts++
+				cr.stop = true
 				cr.emit(rec{"e": "watchdog", "what": "committed messages of " + name + " did not arrive within 30 s"})
 			}
 			s[name] = ints(got)
@@ -918,6 +920,8 @@ func (cr *caseRun) observe(final bool) {
 			v, ok := in.obs()
 			if !ok {
 				cr.timeouts++
+				cr.stop = true
+				in.obs = nil
 				cr.emit(rec{"e": "watchdog", "what": "state of " + name + " could not be observed within 20 s"})
 				continue
 			}
@@ -954,7 +958,7 @@ func (cr *caseRun) body(iface distsys.ArchetypeInterface) error {
 		}
 		cr.emit(rec{"e": "feed", "r": st.R, "a": ints(st.A)})
 	}
-	if cr.pos >= len(cr.c.Steps) {
+	if cr.pos >= len(cr.c.Steps) || cr.stop {
 		return iface.Goto("A.Done")
 	}
 	att := cr.c.Steps[cr.pos]
@@ -1049,7 +1053,12 @@ func (cr *caseRun) run() {
 	if err != nil {
 		panic(err)
 	}
-	defer os.RemoveAll(cr.dir)
+	finished := false
+	defer func() {
+		if finished { // a case that hangs may still have goroutines writing there
+			os.RemoveAll(cr.dir)
+		}
+	}()
 	kinds, inits := rec{}, rec{}
 	for _, rs := range cr.c.Res {
 		kinds[rs.Name] = rs.Kind
@@ -1107,6 +1116,7 @@ func (cr *caseRun) run() {
 	}()
 	select {
 	case p := <-done:
+		finished = true
 		if p != nil {
 			cr.mu.Lock()
 			cur := cr.cur
